@@ -5,6 +5,7 @@ import (
 	"regexp"
 	"sort"
 	"strings"
+	"sync"
 	"testing"
 
 	"github.com/mithrandie/csvq/lib/query"
@@ -82,6 +83,11 @@ func drawArgs(t *rapid.T, name string, n int, withCols bool) ([]string, []string
 				b = fw.PickU(t, "lensafe", lengthSafe)
 			}
 		}
+		// a 100 000-character pattern against a 100 000-character subject is 1e10
+		// regexp steps: slow, not a hang
+		if strings.HasPrefix(name, "REGEXP_") && i == 1 && strings.HasPrefix(b.class, "long") {
+			b = bval{"'(a|b)*c{2,3}$'", "regex"}
+		}
 		sqls[i], classes[i] = b.sql, b.class
 	}
 	return sqls, classes
@@ -142,6 +148,49 @@ const avoidKnownFrameOffsetUnclamped = true
 
 var frameInts = []string{"0", "1", "2", "3", "100"}
 
+// arities csvq accepts per built-in, learnt once by calling each with 0..4 NULL
+// arguments (only used to weight the generator: 80% of the calls get an
+// accepted arity, the rest any arity from 0 to 4).
+var (
+	arityOnce sync.Once
+	arities   = map[string][]int{}
+)
+
+func learnArities() {
+	s, err := run.NewSess(run.Opt{Dir: loadScratch()})
+	if err != nil {
+		return
+	}
+	defer s.Close()
+	_ = s.Exec("DECLARE t VIEW (g, v, s); INSERT INTO t VALUES (1, 1, 'a');")
+	probe := func(key, tmpl string) {
+		for k := 0; k <= 4; k++ {
+			args := strings.TrimSuffix(strings.Repeat("NULL, ", k), ", ")
+			r := s.Exec(fmt.Sprintf(tmpl, args))
+			if cl := run.ErrClass(r.Err); cl != "E1/10402" && cl != "fatal" && cl != "syntax" {
+				arities[key] = append(arities[key], k)
+			}
+		}
+	}
+	for _, n := range scalarNames {
+		probe("func/"+n, "SELECT "+n+"(%s);")
+	}
+	for _, n := range aggregateNames {
+		probe("aggregate/"+n, "SELECT "+n+"(%s) FROM t;")
+	}
+	for _, n := range analyticNames {
+		probe("analytic/"+n, "SELECT "+n+"(%s) OVER (ORDER BY v) FROM t;")
+	}
+}
+
+func drawArity(t *rapid.T, key string, anyWeights []int) int {
+	arityOnce.Do(learnArities)
+	if ok := arities[key]; len(ok) > 0 && fw.Pct(t, "arityAccepted", 80) {
+		return fw.PickU(t, "arity", ok)
+	}
+	return fw.Weighted(t, "nargs", anyWeights)
+}
+
 func init() {
 	if !avoidKnownFrameOffsetUnclamped {
 		frameInts = append(frameInts, "200000000")
@@ -184,13 +233,72 @@ func genOver(t *rapid.T, windowing bool) string {
 	return "OVER (" + strings.Join(parts, " ") + ")"
 }
 
+// knownShape is a genuine csvq defect this check has found and reported: the
+// signature it is reported under and the program shapes that hit it. While
+// avoidKnownShapes is true the generator re-draws a case of such a shape so
+// that the search continues past it; set it to false to reproduce them all.
+type knownShape struct {
+	sig   string
+	what  string
+	match func(c progCase) bool
+}
+
+const avoidKnownShapes = true
+
+func argIn(c progCase, i int, classes ...string) bool {
+	if i >= len(c.Args) {
+		return false
+	}
+	for _, cl := range classes {
+		if c.Args[i] == cl {
+			return true
+		}
+	}
+	return false
+}
+
+func anyArgBig(c progCase) bool {
+	for _, a := range c.Args {
+		if bigClasses[a] || strings.HasPrefix(a, "col_") {
+			return true
+		}
+	}
+	return false
+}
+
+var knownShapes = []knownShape{
+	{"rand_range_overflow_fatal", "RAND(low, high): high - low + 1 overflows int64 (or an argument is NaN/Inf) -> rand.Int63n panics (lib/query/function.go Rand)",
+		func(c progCase) bool { return c.Kind == "func" && c.Name == "RAND" && len(c.Args) == 2 && anyArgBig(c) }},
+	{"json_value_empty_text_nil_fatal", "JSON_VALUE(query, '') : the decoder returns a nil structure for empty text and ConvertToValue calls Encode on it (lib/json/conversion.go:30)",
+		func(c progCase) bool {
+			return c.Kind == "func" && c.Name == "JSON_VALUE" && argIn(c, 1, "empty", "space", "col_v", "col_s", "col_g")
+		}},
+}
+
+func knownShapeOf(c progCase) *knownShape {
+	for i := range knownShapes {
+		if knownShapes[i].match(c) {
+			return &knownShapes[i]
+		}
+	}
+	return nil
+}
+
 func genProg(t *rapid.T) progCase {
+	c := genProgOnce(t)
+	for i := 0; avoidKnownShapes && i < 30 && knownShapeOf(c) != nil; i++ {
+		c = genProgOnce(t)
+	}
+	return c
+}
+
+func genProgOnce(t *rapid.T) progCase {
 	c := progCase{}
 	switch fw.Weighted(t, "kind", []int{42, 12, 16, 14, 4, 12}) {
 	case 0:
 		c.Kind = "func"
 		c.Name = fw.PickU(t, "fn", scalarNames)
-		n := fw.Weighted(t, "nargs", []int{6, 30, 30, 22, 12})
+		n := drawArity(t, "func/"+c.Name, []int{15, 25, 25, 20, 15})
 		tbl := fw.Pct(t, "inTable", 25)
 		args, classes := drawArgs(t, c.Name, n, tbl)
 		c.Args = classes
@@ -222,7 +330,7 @@ func genProg(t *rapid.T) progCase {
 		c.Kind = "aggregate"
 		c.Name = fw.PickU(t, "agg", aggregateNames)
 		list := c.Name == "LISTAGG" || c.Name == "JSON_AGG"
-		n := fw.Weighted(t, "nargs", []int{6, 50, 30, 10, 4})
+		n := drawArity(t, "aggregate/"+c.Name, []int{15, 35, 30, 15, 5})
 		args, classes := drawArgs(t, c.Name, n, true)
 		c.Args = classes
 		inner := strings.Join(args, ", ")
@@ -250,7 +358,7 @@ func genProg(t *rapid.T) progCase {
 	case 2:
 		c.Kind = "analytic"
 		c.Name = fw.PickU(t, "ana", analyticNames)
-		n := fw.Weighted(t, "nargs", []int{20, 25, 30, 20, 5})
+		n := drawArity(t, "analytic/"+c.Name, []int{20, 25, 30, 20, 5})
 		args, classes := drawArgs(t, c.Name, n, true)
 		// the value argument of the offset functions is usually a column
 		if n >= 1 && fw.Pct(t, "firstIsCol", 60) {
@@ -276,6 +384,10 @@ func genProg(t *rapid.T) progCase {
 		c.Args = []string{b1.class}
 		tmpl := fw.PickU(t, "clause", clauseTemplates)
 		c.Name = tmpl.name
+		if avoidKnownLimitPercentNaN && strings.Contains(tmpl.sql, "%1 PERCENT") && (b1.class == "nan" || b1.class == "s_nan") {
+			b1 = bval{"'Inf'", "s_inf"}
+			c.Args = []string{b1.class}
+		}
 		sql := strings.Replace(tmpl.sql, "%1", b1.sql, -1)
 		if strings.Contains(sql, "%2") {
 			sql = strings.Replace(sql, "%2", b2.sql, -1)
@@ -356,6 +468,13 @@ func genProg(t *rapid.T) progCase {
 	return c
 }
 
+// Known genuine defect (reported): `LIMIT x PERCENT` with x = NaN (the float
+// or the text 'NaN') computes int(math.Ceil(NaN)) = MinInt64 and slices the
+// record set with it: "Fatal Error: slice bounds out of range" (View.Limit,
+// lib/query/view.go). The generator keeps NaN out of PERCENT so that the search
+// continues; set to false to reproduce (signature limit_percent_nan_fatal).
+const avoidKnownLimitPercentNaN = true
+
 type clauseTmpl struct{ name, sql string }
 
 var clauseTemplates = []clauseTmpl{
@@ -400,7 +519,7 @@ var clauseTemplates = []clauseTmpl{
 	{"TRIGGER ERROR", "TRIGGER ERROR %I %1;"},
 	{"TRIGGER ERROR message", "TRIGGER ERROR %1;"},
 	{"EXIT", "EXIT %I;"},
-	{"WHILE", "VAR @i := 0; WHILE @i < 3 DO VAR @i := @i + 1; IF %1 THEN CONTINUE; ELSEIF %2 THEN BREAK; END IF; END WHILE; SELECT @i;"},
+	{"WHILE", "VAR @i := 0; WHILE @i < 3 DO @i := @i + 1; IF %1 THEN CONTINUE; ELSEIF %2 THEN BREAK; END IF; END WHILE; SELECT @i;"},
 	{"user function", "DECLARE f FUNCTION (@a, @b DEFAULT %2) AS BEGIN RETURN @a + @b; END; SELECT f(%1), f(%1, %2);"},
 	{"user aggregate", "DECLARE ag AGGREGATE (c, @n DEFAULT 1) AS BEGIN VAR @x; FETCH c INTO @x; RETURN @x; END; SELECT ag(v, %1) FROM t; SELECT ag(v) OVER (ORDER BY v) FROM t;"},
 	{"INSERT", "INSERT INTO t VALUES (%1, %2, NULL); INSERT INTO t (g) VALUES (%1), (%2); SELECT * FROM t;"},
@@ -510,6 +629,12 @@ func checkProg(c progCase) (fw.Outcome, *fw.Violation) {
 		if (v.Sig == "hang" || v.Sig == "runaway_memory") && hugeFrameRe.MatchString(c.SQL) {
 			v.Sig = "window_frame_offset_unclamped"
 		}
+		if strings.HasPrefix(v.Sig, "fatal:") && strings.HasSuffix(v.Sig, "@query.(*View).Limit") && strings.Contains(c.SQL, "PERCENT") {
+			v.Sig = "limit_percent_nan_fatal"
+		}
+		if k := knownShapeOf(c); k != nil && (strings.HasPrefix(v.Sig, "fatal:") || v.Sig == "hang" || v.Sig == "runaway_memory" || strings.HasPrefix(v.Sig, "panic_escaped")) {
+			v.Sig = k.sig
+		}
 		return o, v
 	}
 	outcome := "ok"
@@ -541,7 +666,7 @@ func checkProg(c progCase) (fw.Outcome, *fw.Violation) {
 
 func TestC19Programs(t *testing.T) {
 	fw.Run(t, fw.Spec[progCase]{
-		ID: "C19", Name: "programs", Quick: 24000, Thorough: 480000,
+		ID: "C19", Name: "programs", Quick: 40000, Thorough: 800000,
 		Gen: genProg, Check: checkProg,
 		Rule: "syntactically valid programs: every name in query.Functions (+NOW, JSON_OBJECT; CALL excluded), query.AggregateFunctions (+LISTAGG, JSON_AGG) and query.AnalyticFunctions, enumerated at run time, called with 0-4 arguments drawn from ~55 boundary values (0, -1, int64 bounds, beyond int64, 1e308, denormal, NaN/Inf as floats and as text, NULL, '', wrong types, datetimes at year 0/10000, malformed JSON/regex/format strings, 100 000-character strings, column references) in plain / DISTINCT / GROUP BY / WITHIN GROUP / OVER (partition, order, ROWS frames) / IGNORE NULLS forms over a 0-8 row temporary table holding boundary cells; the same values in LIMIT, OFFSET, PERCENT, WITH TIES, FETCH, NTILE, NTH_VALUE, LAG/LEAD, frame offsets, cursor FETCH ABSOLUTE/RELATIVE, @@LIMIT_RECURSION with recursive CTEs, @@CPU, @@WAIT_TIMEOUT, REMOVE FROM @@DATETIME_FORMAT, ORDER/GROUP BY constants, JSON_ROW, JSON_TABLE, CASE, operators, PRINTF, TRIGGER ERROR, EXIT, control flow, user functions/aggregates, INSERT/UPDATE/DELETE/ALTER on the temporary table; and SET @@FORMAT to each of 12 output formats x 0-2 write settings (encodings, delimiters, delimiter positions, line breaks, JSON escapes, ...) x 16 column-name shapes (duplicates, periods, empty, control characters, ...) x boundary cells with the output captured. Oracle: as load_data (no FatalError, no escaped panic, returns, documented code, memory stays bounded). non-trivial = a built-in reached with >=1 boundary argument (not 'function does not exist'); distinct by (function, argument classes, outcome) / (clause, classes, outcome) / (format, settings, name shape, outcome)",
 		Assumptions: []string{
